@@ -1,6 +1,15 @@
 /-
   C11 — hiding then revealing an AVP with the same secret and random vector returns it.
   The hash is a parameter: the theorems hold for every function with 16-octet output (MD5 is one).
+
+  Domain.  "Every non-hidden AVP that fits the size limits" is read as the encodable domain C03 spells out: at most
+  1023 octets on the wire *and* at least what the kind's format needs — variable-length values non-empty, optional
+  text not `Some("")` (`AVP.Encodable`, decidable).  Outside it the crate's value types can still be built
+  (`HostName { value: vec![] }`), `hide` accepts them, and `reveal` then answers what the decoder makes of such a value:
+  `Err(IncompleteAVP(t))` for an empty value, the same AVP without the empty text for `Some("")`.  That is not hidden
+  here: `reveal_hide_any` states the outcome for *every* non-hidden AVP within the upper limit, `reveal_hide_empty_value`
+  / `reveal_hide_empty_text` spell out the two cases, and the `hr` stream carries them (model and implementation agree).
+  DESIGN.md §0.5 records the reading.
 -/
 import Rl2tp.Proofs.HideReveal
 import Rl2tp.Proofs.Greedy
@@ -16,6 +25,39 @@ theorem reveal_hide (a : AVP) (secret : Bytes) (rv : UInt32) (lp ap : Bytes)
     (he : a.Encodable) (hh : a.isHidden = false) (hap : ap.length = 16) :
     ∃ h, hide md5 a secret rv lp ap = .ok h ∧ reveal md5 h secret rv = .ok (.ok a) :=
   Rl2tp.reveal_hide md5 hmd5 a secret rv lp ap he.1 hh he.2 hap
+
+include hmd5 in
+/-- for **every** non-hidden AVP of at most 1023 octets — well-formed or not: revealing what `hide` produced yields
+    exactly what the decoder makes of the AVP's own value octets -/
+theorem reveal_hide_any (a : AVP) (secret : Bytes) (rv : UInt32) (lp ap : Bytes)
+    (hl : 6 + a.value.length ≤ 1023) (hh : a.isHidden = false) (hap : ap.length = 16) :
+    ∃ h, hide md5 a secret rv lp ap = .ok h ∧ reveal md5 h secret rv = ownDecode a :=
+  reveal_hide_general md5 hmd5 a secret rv lp ap hh hl hap
+
+include hmd5 in
+/-- outside the domain, case 1: a variable-length value that is empty is hidden without complaint and revealed as
+    `Err(IncompleteAVP(7))` (Host Name shown; the other byte-string and text kinds answer with their own number) -/
+theorem reveal_hide_empty_value (secret : Bytes) (rv : UInt32) (lp ap : Bytes) (hap : ap.length = 16) :
+    ∃ h, hide md5 (.hostName []) secret rv lp ap = .ok h ∧ reveal md5 h secret rv = .ok (.error (.incompleteAVP 7)) := by
+  obtain ⟨h, h1, h2⟩ := reveal_hide_general md5 hmd5 (.hostName []) secret rv lp ap rfl (by decide) hap
+  exact ⟨h, h1, by rw [h2]; rfl⟩
+
+include hmd5 in
+/-- outside the domain, case 2: an optional text that is `Some("")` comes back as `None` -/
+theorem reveal_hide_empty_text (c : UInt16) (et : ErrorType) (secret : Bytes) (rv : UInt32) (lp ap : Bytes)
+    (hap : ap.length = 16) :
+    ∃ h, hide md5 (.resultCode c (some (et, some []))) secret rv lp ap = .ok h ∧
+      reveal md5 h secret rv = .ok (.ok (.resultCode c (some (et, none)))) := by
+  obtain ⟨h, h1, h2⟩ := reveal_hide_general md5 hmd5 (.resultCode c (some (et, some []))) secret rv lp ap rfl
+    (by simp [AVP.value, be16]) hap
+  refine ⟨h, h1, ?_⟩
+  rw [h2]
+  unfold ownDecode
+  simp only [AVP.attr, AVP.value, decodeAvp, be16, List.cons_append, List.nil_append, List.append_nil]
+  show (match (readResultCode : M Bytes DErr AVP) _ with | .ok r _ => _ | .err e _ => _ | .fault f => _) = _
+  rw [readResultCode_cons_long, word16_be16, word16_be16]
+  have : ErrorType.ofCode et.toCode = some et := by cases et <;> rfl
+  simp [rcErrorSpec, this]
 
 include hmd5 in
 /-- … and after the hidden AVP has been encoded and decoded (it fits when 2+|value|+|lp| ≤ 1008) -/
